@@ -33,6 +33,7 @@ SPEC = dict(
          "stay queued while 1-20 further requests of the same shape and size, of other sizes and of other encodings go through the same "
          "handlers in the same goroutine (the pooled HTTP body buffer is handed back and reused), and only then the queued events are "
          "re-encoded and compared with their re-encoding right after their own request; "
+         "events also carry field names that differ only in letter case from a configured sampling-key / trace-ID / parent-ID field name, alone and next to the exact name in both orders; "
          "non-trivial = an event with a nested value or >= 4 fields that is re-encoded; distinct by transcript hash",
     trusted_base=["tinylib/msgp, valyala/fastjson, json-iterator at byte level (checked differentially: hand-written encoder in, independent decoder out)",
                   "JSON number parsing is an external function of the model: where the library's float64 is not strconv's the harness passes its value "
